@@ -221,7 +221,12 @@ func WithUpdateMTime(enabled bool) Option {
 }
 
 func fromURL(u *url.URL) (*fsCache, error) {
-	appname := u.Query().Get("appname")
+	// A malformed pair must not be dropped silently: it may be the one that asks for encryption.
+	query, err := url.ParseQuery(u.RawQuery)
+	if err != nil {
+		return nil, fmt.Errorf("fscache: invalid DSN query: %w", err)
+	}
+	appname := query.Get("appname")
 	if appname == "" {
 		return nil, ErrMissingAppName
 	}
@@ -229,17 +234,22 @@ func fromURL(u *url.URL) (*fsCache, error) {
 	if u.Path != "" && u.Path != "/" {
 		opts = append(opts, WithBaseDir(u.Path))
 	}
-	if v := u.Query().Get("connect_timeout"); v != "" {
+	if v := query.Get("connect_timeout"); v != "" {
 		opts = append(opts, WithConnectTimeout(parseTimeout(v)))
 	}
-	if v := u.Query().Get("timeout"); v != "" {
+	if v := query.Get("timeout"); v != "" {
 		opts = append(opts, WithTimeout(parseTimeout(v)))
 	}
-	if encrypt := u.Query().Get("encrypt"); encrypt == "on" || encrypt == "aesgcm" {
-		key := cmp.Or(u.Query().Get("encrypt_key"), os.Getenv("FSCACHE_ENCRYPT_KEY"))
+	switch encrypt := query.Get("encrypt"); encrypt {
+	case "on", "aesgcm":
+		key := cmp.Or(query.Get("encrypt_key"), os.Getenv("FSCACHE_ENCRYPT_KEY"))
 		opts = append(opts, WithEncryption(key))
+	case "", "off":
+	default:
+		// An unknown spelling (ON, true, ...) is a request for encryption that cannot be honoured.
+		return nil, fmt.Errorf("fscache: unknown value %q for the encrypt parameter", encrypt)
 	}
-	if updateMTime := u.Query().Get("update_mtime"); updateMTime == "on" {
+	if updateMTime := query.Get("update_mtime"); updateMTime == "on" {
 		opts = append(opts, WithUpdateMTime(true))
 	}
 	if cap(opts) > len(opts) {
